@@ -195,7 +195,7 @@ func drawSecret(t *rapid.T, op *Op, e genEnv, pool []sc) {
 		}
 	}
 	if ch.src == "lit" {
-		op.S = pick(t, "lit", "wrong-Pass1!", "x", "000000", "' OR 1=1 --", "null", "true", "Passw0rd!")
+		op.S = pick(t, "lit", "wrong-Pass1!", "x", "000000", "' OR 1=1 --", "null", "true", "Passw0rd!", "0", "7", "42")
 	}
 	if ch.src == "long" {
 		op.MA = pick(t, "longlen", 100, 1000, 70000)
@@ -214,7 +214,7 @@ var (
 		{"cnfraw", 5, "own", nil}, {"splicecnf", 8, "own", nil}, {"rectok", 5, "own", nil}, {"lit", 3, "", nil}, {"empty", 3, "", nil}}
 	poolRec = []sc{{"rectok", 50, "own", tokenMuts}, {"rectok", 8, "other", tokenMuts}, {"recsel", 4, "own", nil}, {"recver", 4, "own", nil},
 		{"recraw", 5, "own", nil}, {"splicerec", 8, "own", nil}, {"cnftok", 5, "own", nil}, {"lit", 3, "", nil}, {"empty", 3, "", nil}}
-	poolTOTP = []sc{{"totp", 45, "own", nil}, {"totp", 12, "other", nil}, {"totpprev", 6, "own", nil}, {"totpsess", 6, "", nil},
+	poolTOTP = []sc{{"totp", 45, "own", totpMuts}, {"totp", 12, "other", nil}, {"totpprev", 6, "own", nil}, {"totpsess", 6, "", nil},
 		{"rand6", 10, "", nil}, {"empty", 5, "", nil}, {"smsany", 5, "", nil}, {"lit", 4, "", nil}}
 	poolSMS = []sc{{"sms", 35, "own", nil}, {"sms", 12, "other", nil}, {"smssess", 15, "", nil}, {"smsany", 10, "", nil},
 		{"rand6", 10, "", nil}, {"empty", 4, "", nil}, {"totp", 4, "own", nil}, {"lit", 3, "", nil}}
@@ -225,6 +225,9 @@ var (
 	poolCookie = []sc{{"cookie", 50, "any", []string{"", "", "", "flip", "truncbytes", "extbytes", "trunc", "altbits"}}, {"lit", 10, "", nil}, {"empty", 5, "", nil},
 		{"pwhash", 4, "any", nil}}
 )
+
+// totpMuts: the code as shown, with blanks around it, cut to its leading or trailing digits, or lengthened
+var totpMuts = []string{"", "", "", "", "", "", "trunc", "tail", "tail", "space", "lead", "ext"}
 
 var visitRoutes = []string{"/p/none", "/p/full", "/p/2fa", "/p/full2fa", "/p/lock", "/p/confirm", "/open"}
 var redirPool = []string{"", "", "", "/back/here", "/x?y=1"}
@@ -858,22 +861,28 @@ func genCase(t *rapid.T, p profile) Case {
 	cfg := genConfig(t, p)
 	e := genEnv{cfg: cfg, nAcct: len(cfg.Accounts), nBrows: cfg.Browsers}
 	c := Case{Cfg: cfg, Ops: genOps(t, p, e)}
-	if p.faultPct > 0 {
-		kinds := p.faultKinds
-		if len(kinds) == 0 {
-			kinds = []string{"generic"}
+	decorateFaults(t, p, c.Ops)
+	return c
+}
+
+// decorateFaults gives a share (profile.faultPct) of the requests one failing backend call.
+func decorateFaults(t *rapid.T, p profile, ops []Op) {
+	if p.faultPct <= 0 {
+		return
+	}
+	kinds := p.faultKinds
+	if len(kinds) == 0 {
+		kinds = []string{"generic"}
+	}
+	for i := range ops {
+		if len(p.faultOps) > 0 && !contains(p.faultOps, ops[i].K) {
+			continue
 		}
-		for i := range c.Ops {
-			if len(p.faultOps) > 0 && !contains(p.faultOps, c.Ops[i].K) {
-				continue
-			}
-			if c.Ops[i].FA == 0 && chance(t, "fault", p.faultPct) {
-				c.Ops[i].FA = pick(t, "faultat", 1, 1, 1, 2, 2, 3, 3, 4, 5, 6, 7)
-				c.Ops[i].FK = pick(t, "faultkind", kinds...)
-			}
+		if ops[i].FA == 0 && chance(t, "fault", p.faultPct) {
+			ops[i].FA = pick(t, "faultat", 1, 1, 1, 2, 2, 3, 3, 4, 5, 6, 7)
+			ops[i].FK = pick(t, "faultkind", kinds...)
 		}
 	}
-	return c
 }
 
 var allModules = []string{"auth", "confirm", "lock", "logout", "oauth2", "otp", "recover", "register", "remember"}
